@@ -10,6 +10,8 @@ from .tyutil import result_parts
 from .lib_mpt import path_str
 from .lib_expr import expr as lexpr, show as lshow
 
+from . import lib_effect as E
+
 PROPERTY = "C17"
 TECHNIQUE = ("CASTCHECK + PARAMCHECK (length / byte-width arguments compared with the receiver's own) + dominance "
              "ORDER of verification before use in the entry points + ERRDISC on VerifyError in the encode entry points")
@@ -167,27 +169,59 @@ def run(facts, tier, ctx):
                    "FORWARD"}, trivial=True)
             continue
         fields = [f["name"] for v in adt["variants"] for f in v["fields"]]
+        # Both clauses are read off the effect interpreter's path facts: conditions that hold on the way to a point, with
+        # `?`-checked private helpers inlined (a check moved into `fn check_x(&self, n) -> Result<..>` counts as before).
+        def facts_of(body, log=None):
+            ectx = E.Ctx(facts)
+            ectx.open_loops = True
+            ectx.collect_asserts = True
+            ectx.log_calls = log
+            itp = E.Interp(ectx, body)
+            itp.run()
+            return ectx
+
+        def holds(assume, pred):
+            for f_ in assume:
+                if f_[0] != "cond":
+                    continue
+                c = E.strip_casts(f_[1])
+                if isinstance(c, tuple) and c and c[0] == "bin" and pred(c[1], E.strip_casts(c[2]), E.strip_casts(c[3]), f_[2]):
+                    return True
+            return False
+        NEG = {"Eq": "Ne", "Ne": "Eq", "Lt": "Ge", "Ge": "Lt", "Gt": "Le", "Le": "Gt"}
+        SWAP = {"Eq": "Eq", "Ne": "Ne", "Lt": "Gt", "Gt": "Lt", "Le": "Ge", "Ge": "Le"}
+
+        def norm(op, x, y, truth):
+            """the relation that holds, as (op, x, y) with op in Eq/Ne/Lt/Le"""
+            if not truth:
+                op = NEG.get(op)
+            if op in ("Gt", "Ge"):
+                op, x, y = SWAP[op], y, x
+            return op, x, y
         # (a) own byte width
         if "bytes_per_sample" in fields and b_le is not None:
-            found = False
-            for (c, bi, val) in guards_in(b_le):
-                if c["kind"] != "cmp2" or c["op"] not in ("Eq", "Ne"):
-                    continue
-                sides = [(c["a_origins"], c["a"]), (c["b_origins"], c["b"])]
-                has_param = any(any(o[0] == "param" and o[1] == 3 for o in so) for so, _n in sides)
-                has_own = any(n == "bytes_per_sample" and any(o[0] == "param" and o[1] == 1 for o in so)
-                              for so, n in sides)
-                if has_param and has_own:
-                    found = True
             where = b_le.loc()
             sample = {"impl": imp["self"], "method": "fill_le_bytes", "site": where}
+            try:
+                ectx = facts_of(b_le)
+                oks = [a for (bid, _bi, a) in ectx.ok_returns if bid == b_le.id]
+
+                def width_eq(op, x, y, truth):
+                    op, x, y = norm(op, x, y, truth)
+                    cs = {E.canon(x), E.canon(y)}
+                    return op == "Eq" and cs == {"arg3", "arg1.bytes_per_sample"}
+                found = bool(oks) and all(holds(a, width_eq) for a in oks)
+            except E.Undecided as e:
+                found = False
+                sample["undecided"] = str(e)[:120]
             if found:
-                pc.ok(dict(sample, verdict="ok", clause="argument compared with self.bytes_per_sample, Err on mismatch"))
+                pc.ok(dict(sample, verdict="ok", clause="on every Ok path the argument equals self.bytes_per_sample"))
             else:
                 pc.fail(Finding("PARAMCHECK", b_le.id, "bytes_per_sample-not-compared", 0, where,
-                                "%s owns a bytes_per_sample field but fill_le_bytes never compares its "
-                                "bytes_per_sample argument with it (a byte fill with the wrong width is silently "
-                                "reinterpreted)" % imp["self"]), dict(sample, verdict="FAIL"))
+                                "%s owns a bytes_per_sample field but fill_le_bytes can return Ok without its "
+                                "bytes_per_sample argument having been compared with it (a byte fill with the wrong width is "
+                                "silently reinterpreted)%s" % (imp["self"], ": " + sample["undecided"] if "undecided" in sample else "")),
+                        dict(sample, verdict="FAIL"))
         # (b) capacity
         if imp.get("self_adt") == "source::FrameBuf":
             for b in (b_il, b_le):
@@ -196,27 +230,31 @@ def run(facts, tier, ctx):
                 sites = [bi for bi, t in b.calls() if (t.get("fn") or {}).get("def", "").endswith("deinterleave")]
                 if not sites:
                     raise FactError("%s does not call deinterleave" % b.id)
+                try:
+                    ectx = facts_of(b, log=r"deinterleave$")
+                    logged = [c for c in ectx.calls if c[3] == b.id]
+                except E.Undecided as e:
+                    logged = []
+                # the sample count of the input, in whole samples: its length, or length / the byte-width argument
+                units = {"len(arg2)", "(len(arg2) Div arg3)"}
+
+                def cap(op, x, y, truth):
+                    op, x, y = norm(op, x, y, truth)
+                    return op == "Le" and E.canon(x) in units and E.canon(y) == "len(arg1.samples)" \
+                        or op == "Lt" and E.canon(x) in units and E.canon(y) == "(len(arg1.samples) Add 1)"
                 for bi in sites:
-                    ok = False
-                    for c in dominating_checks(facts, b, (bi, "term")):
-                        if c["kind"] != "cmp2" or c["op"] not in ("Le", "Lt", "Ge", "Gt"):
-                            continue
-                        a_len = len_of_param(c["ctx"][0], c["a_origins"], 2)
-                        b_len = len_of_param(c["ctx"][0], c["b_origins"], 2)
-                        a_self = derives_from_self(c["ctx"][0], c["a_origins"])
-                        b_self = derives_from_self(c["ctx"][0], c["b_origins"])
-                        if (a_len and b_self) or (b_len and a_self):
-                            ok = True
                     where = b.loc(bi, "term")
+                    mine = [c for c in logged if c[2] == where]
+                    ok = bool(mine) and all(holds(c[4] or [], cap) for c in mine)
                     sample = {"impl": imp["self"], "method": b.raw["name"], "site": where}
                     if ok:
                         pc.ok(dict(sample, verdict="ok", clause="input length compared with the buffer's capacity "
                                                                 "before de-interleaving"))
                     else:
                         pc.fail(Finding("PARAMCHECK", b.id, "length-not-compared-with-capacity", 0, where,
-                                        "%s de-interleaves its input without a dominating comparison of the input "
-                                        "length with the buffer's own capacity (the Fill trait documents an error for "
-                                        "over-long input; filled_size can exceed size)" % b.id),
+                                        "%s de-interleaves its input without the input's sample count having been "
+                                        "compared with the buffer's own capacity on the way (the Fill trait documents an "
+                                        "error for over-long input; filled_size can exceed size)" % b.id),
                                 dict(sample, verdict="FAIL"))
     pc.require_floor(4 if has_par else 3, "fill parameter obligations")
     out.append(pc)
@@ -339,7 +377,6 @@ def run(facts, tier, ctx):
     # ------------------------------------------------------------ ENTRY/non-empty block
     # the frame entry point must reject an empty frame buffer: everything below it (block-size code selection computes
     # size - 1) assumes at least one sample.
-    from . import lib_effect as E
     eb = RuleResult("ENTRY/non-empty-block", "the frame entry point verifies that the frame buffer holds at least one sample")
     fe = facts.bodies.get("coding::encode_fixed_size_frame_impl")
     if fe is None:
@@ -388,6 +425,52 @@ def rule_scan(facts):
         fn = t.get("fn") or {}
         if fn.get("name") == "next" and fn.get("trait") == "std::iter::Iterator" and bi in b.reachable_after(bi):
             heads.append(bi)
+    # internal iteration: (0..channels).any(|ch| out_of_range(ch)) / .all(..) with the scan inside the closure
+    inner = []
+    if not heads:
+        for bi, t in b.calls():
+            fn = t.get("fn") or {}
+            if fn.get("trait") == "std::iter::Iterator" and fn.get("name") in ("any", "all") and len(t["args"]) == 2:
+                from .lib_errdisc import closure_arg_body as _cab
+                cl = _cab(facts, b, t["args"][1])
+                if cl is not None:
+                    inner.append((bi, fn["name"], cl))
+    if inner:
+        for (bi, kind, cl) in inner:
+            # the closure scans the channel on every path to its return
+            scans_c = [ci for ci, ct in cl.calls() if ct.get("args") and
+                       ("channel_slice" in lshow(lexpr(cl, ct["args"][0])) or ".samples" in lshow(lexpr(cl, ct["args"][0])))
+                       and (ct.get("fn") or {}).get("name") not in ("channel_slice", "channels", "len", "deref", "index")]
+            pth = cl.find_path(0, set(cl.returns()), removed=set(scans_c)) if scans_c else [0]
+            if pth is None:
+                sc.ok({"function": cl.id, "verdict": "every call of the predicate scans the channel"})
+            else:
+                sc.fail(Finding("SCAN/samples", cl.id, "iteration-without-scan", 0, cl.loc(),
+                                "the per-channel predicate can return without scanning the channel's samples"))
+            # Ok is returned only when the predicate was false for every channel (any) / true for every channel (all)
+            want = 0 if kind == "any" else 1
+            dl = b.term(bi)["dst"]["l"]
+            sws = [ub for (ub, us) in b.uses_of_local(dl) if us == "term" and b.term(ub)["k"] == "switch"]
+            oks = [ob for ob, si, s in b.iter_stmts() if s["k"] == "assign" and s["dst"]["l"] == 0 and not s["dst"]["p"]
+                   and s["rv"]["k"] == "agg" and s["rv"].get("variant") == "Ok"]
+            good = bool(sws) and bool(oks)
+            for sw in sws:
+                tm = b.term(sw)
+                wrong = [tb for val, tb in tm["vals"] if val != want] + ([tm["else"]] if want in [v for v, _t in tm["vals"]] else [])
+                right = [tb for val, tb in tm["vals"] if val == want] or [tm["else"]]
+                for ob in oks:
+                    if any(ob == w or ob in b.reachable(w) for w in wrong if w not in right):
+                        good = False
+            for ob in oks:
+                if b.find_path(0, {ob}, removed={bi}) is not None:
+                    good = False
+            if good:
+                sc.ok({"function": b.id, "verdict": "Ok only when %s(..) is %s" % (kind, bool(want)), "site": b.loc(bi, "term")})
+            else:
+                sc.fail(Finding("SCAN/samples", b.id, "ok-without-scan", 0, b.loc(bi, "term"),
+                                "verify_samples can return Ok although the per-channel range predicate did not clear every channel"))
+        sc.require_floor(2, "scan obligations")
+        return sc
     if not heads:
         sc.fail(Finding("SCAN/samples", b.id, "no-channel-loop", 0, b.loc(), "no loop found in verify_samples"))
         return sc
